@@ -340,6 +340,18 @@ func propC18(rec *ev.Recorder) func(t *rapid.T) {
 		}
 		c.Schema = sgen.Draw(t, sgen.Opts{Draft: d, MaxDepth: 3})
 		c.Instances = sgen.Instances(t, c.Schema, 4)
+		if !c.Draft7 && rapid.IntRange(0, 5).Draw(t, "annotation-lens") == 0 {
+			// C07's annotation-flow schemas: full of empty and boolean subschemas beside
+			// unevaluated*, where a decoration turns a structurally empty schema into a non-empty one
+			c7 := genC07(t)
+			c.Schema = c7.Schema
+			all := c07Instances(c7.Mode)
+			c.Instances = nil
+			for i := 0; i < 6; i++ {
+				c.Instances = append(c.Instances, all[rapid.IntRange(0, len(all)-1).Draw(t, "c07inst")])
+			}
+			rec.Class("lens:annotation-flow(C07 generator)")
+		}
 		stripUnsafeMultipleOf(c.Schema, c.Instances)
 		wantReq := rapid.IntRange(0, 2).Draw(t, "reqdeco") == 0
 		if wantReq && c.Schema.K == jv.Obj && !c.Schema.Has("$ref") && len(requiredPropertySites(c.Schema)) == 0 {
